@@ -58,7 +58,8 @@ class OutputBuffer:
         '''Saves output to buffer (if in buffered mode), or immediately prints to stdout otherwise.'''
 
         # If we're logging only 'warn' or above, and this is an 'info', ignore message, unless always_print is True (useful for printing informational lines regardless of the level setting).
-        if (always_print is False) and (self.get_level(level) < self.__level):
+        # In JSON mode, the minimum level does not apply (the JSON document itself is written as an 'info' message, and must not be filtered out).
+        if (always_print is False) and (self.json is False) and (self.get_level(level) < self.__level):
             return
 
         if self.use_colors and self.colors_supported and len(s) > 0 and level != 'info':
